@@ -41,6 +41,9 @@ fn main() {
     }
     match args[1].as_str() {
         "check" => {
+            // supervisor: the batch runs in a child process, so that a fatal crash of the code
+            // under test (stack overflow, abort, out-of-memory kill) is a finding with a replay
+            // file instead of a dead check
             if args.len() < 4 {
                 usage();
             }
@@ -48,10 +51,66 @@ fn main() {
                 eprintln!("pppsim: no check for property {}", args[2]);
                 std::process::exit(2);
             });
+            let tier = tier_of(&args[3]);
+            if std::env::var("VERIF_NO_SUPERVISOR").is_ok() {
+                let out = engine::run_check(check.as_ref(), tier);
+                std::process::exit(out.exit_code);
+            }
+            let exe = std::env::current_exe().expect("current_exe");
+            let status = std::process::Command::new(&exe)
+                .args(["check-child", &args[2], &args[3]])
+                .status()
+                .expect("cannot start the batch process");
+            if let Some(code) = status.code() {
+                std::process::exit(code);
+            }
+            std::process::exit(engine::crashed_batch(check.as_ref(), tier, &format!("{}", status)));
+        }
+        "check-child" => {
+            if args.len() < 4 {
+                usage();
+            }
+            let check = checks::by_id(&args[2]).unwrap_or_else(|| usage());
             let out = engine::run_check(check.as_ref(), tier_of(&args[3]));
             std::process::exit(out.exit_code);
         }
+        "range" => {
+            // pppsim range <ID> <tier> <lo> <hi>: execute the runs lo..hi and nothing else
+            if args.len() < 6 {
+                usage();
+            }
+            let check = checks::by_id(&args[2]).unwrap_or_else(|| usage());
+            let tier = tier_of(&args[3]);
+            let lo: u64 = args[4].parse().unwrap_or_else(|_| usage());
+            let hi: u64 = args[5].parse().unwrap_or_else(|_| usage());
+            engine::run_range(check.as_ref(), tier, lo, hi);
+            std::process::exit(0);
+        }
         "replay" => {
+            if std::env::var("VERIF_NO_SUPERVISOR").is_err() && args.len() >= 3 {
+                // a recorded crash kills the replaying process too: supervise it
+                let exe = std::env::current_exe().expect("current_exe");
+                let status = std::process::Command::new(&exe)
+                    .args(&args[1..])
+                    .env("VERIF_NO_SUPERVISOR", "1")
+                    .status()
+                    .expect("cannot start the replay process");
+                if let Some(code) = status.code() {
+                    std::process::exit(code);
+                }
+                let rp = engine::read_replay(&args[2]).ok();
+                if rp.as_ref().map(|r| r.clause == "abort").unwrap_or(false) {
+                    println!("replay of {}: the process died ({})", args[2], status);
+                    println!(
+                        "VIOLATION property={} replay={}",
+                        rp.unwrap().scenario.check,
+                        args[2]
+                    );
+                    std::process::exit(1);
+                }
+                eprintln!("pppsim: the replay process died ({})", status);
+                std::process::exit(2);
+            }
             if args.len() < 3 {
                 usage();
             }
